@@ -21,7 +21,9 @@ EXPLANATION = (
     "drains both perspectives detach-then-fire; (c) loop freedom: no-op and acknowledgement rows send nothing, unsolicited "
     "state-changing rows send exactly one reply of the prescribed polarity on every path, coupled with the state write; (d) the "
     "requesters will/wont/do/dont send only when neither perspective is negotiating and the state differs, after arming "
-    "`negotiating`/`onResult`, and return the armed Deferred; nobody else writes the negotiation fields or fires the Deferreds. "
+    "`negotiating`/`onResult`, and return the armed Deferred; nobody else writes the negotiation fields or fires the Deferreds; (e) entries of "
+    "self.options and their perspectives are removed / replaced only under 'neither perspective negotiating' (or after connectionLost drained them); "
+    "(f) the framing clauses of C38's receive automaton are included: a WILL/WONT/DO/DONT or sub-negotiation cut by a delivery boundary is still dispatched. "
     "Not decided: convergence over message interleavings of two endpoints (needs state exploration), user policy hooks."
 )
 ASSUMPTIONS = [
@@ -475,9 +477,72 @@ def check(ctx):
         ctx.ok("who-may-write/negotiation-fields", "twisted.conch.telnet", f"{n_w} writes, all in requesters/handlers/connectionLost")
         ctx.floor("who-may-write/negotiation-fields", n_w, 20, "field writes")
 
+    with ctx.section('option-state/who-may-remove'):
+        _option_state_lifetime(ctx, mod)
+    # a negotiation command that is cut by a delivery boundary must still reach telnet_WILL/WONT/DO/DONT: the framing clauses of
+    # C38's receive automaton (every two-way split of IAC WILL/WONT/DO/DONT x and IAC SB .. IAC SE, state kept on the instance)
+    # are necessary clauses here too - a lost command leaves the request Deferred unfired
+    ctx.include("C38", rule_filter=lambda r: r.startswith("reader/"), why="negotiation commands must survive segmentation to be dispatched")
+
+
+def _option_state_lifetime(ctx, mod):
+    """Entries of self.options (and their us/him perspectives) may be removed / replaced only when both perspectives are idle."""
+    from sa.effects import class_accesses
+    from sa.props._lib_h import guarded_by_edges, truth_edges
+    REMOVERS = {"pop_key", "pop_last", "pop_first", "popitem", "delitem", "clear", "delete", "del-prefix", "del-slice", "rebind-empty", "assign", "setitem", "update", "remove"}
+    n_sites = 0
+    for cname in ("Telnet", "TelnetTransport"):
+        cls = ctx.cls(TELNET, cname)
+        for a in class_accesses(mod, cls, {"options"}, receivers={"self"}):
+            n_sites += 1
+            fq = f"twisted.conch.telnet.{a.func}"
+            c = ctx.construct(fq, a.node)
+            if a.kind == "setdefault":
+                ctx.ok("option-state/who-may-remove", c, "creates an entry only when none exists")
+                continue
+            if a.kind not in REMOVERS:
+                ctx.check(False, "option-state/who-may-remove", c, f"unclassified mutation of self.options ({a.kind})")
+                continue
+            if a.func.endswith(".__init__") and a.kind in ("rebind-empty", "assign"):
+                ctx.ok("option-state/who-may-remove", c, "initialisation")
+                continue
+            fn = mod.find(a.func)
+            g = ctx.cfg(fn)
+            sites = g.ids_of(a.node)
+            idle = {}
+            for pp in ("us", "him"):
+                e1 = truth_edges(g, lambda e, pp=pp: isinstance(e, ast.Attribute) and e.attr == "negotiating" and isinstance(e.value, ast.Attribute) and e.value.attr == pp, False)
+                idle[pp] = bool(e1) and bool(sites) and all(guarded_by_edges(g, s_, e1) for s_ in sites)
+            drained = False
+            if a.func.endswith(".connectionLost"):
+                fires = g.find(lambda x: isinstance(x, ast.Call) and isinstance(x.func, ast.Attribute) and x.func.attr == "errback")
+                loops = g.ids(lambda n: n.kind == "for")
+                # after the drain loop has completed (its 'done' edge), every pending Deferred has been failed
+                drained = bool(fires) and bool(loops) and bool(sites) and all(
+                    edge_path(g, [g.entry], [s_], avoid_edges=[(l, "done") for l in loops]) is None for s_ in sites)
+            ctx.check((idle["us"] and idle["him"]) or drained, "option-state/who-may-remove", c,
+                      f"{a.func} drops / replaces option state ({a.kind}) without knowing that neither perspective has a negotiation in flight: a pending "
+                      "request (negotiating=True, onResult set) for the other direction is discarded - its Deferred never fires and the peer's answer is "
+                      "dispatched to the unsolicited row (e.g. do(X) done, will(X) in flight, WONT X arrives)")
+    # the perspectives themselves are created once per _OptionState
+    for qual, fn in mod.functions():
+        for st in statements(fn):
+            for t, v in assigned_pairs(st) if isinstance(st, (ast.Assign, ast.AnnAssign)) else []:
+                if isinstance(t, ast.Attribute) and t.attr in ("us", "him") and not (isinstance(t.value, ast.Name) and t.value.id == "self" and qual.endswith("_OptionState.__init__")):
+                    n_sites += 1
+                    ctx.check(False, "option-state/who-may-remove", ctx.construct("twisted.conch.telnet." + qual, st),
+                              f"{qual} replaces the '{t.attr}' perspective of an option: its negotiating flag and pending Deferred are lost")
+    ctx.floor("option-state/who-may-remove", n_sites, 2, "mutations of self.options")
+
 
 T = TELNET
 MUTANTS = [
+    Mutant("forget-disabled-option", T, "        d.callback(True)\n        self.disableLocal(option)\n\n    dontMap = {", "        d.callback(True)\n        self.disableLocal(option)\n        if state.him.state == \"no\":\n            del self.options[option]\n\n    dontMap = {",
+           expect_rule="option-state/who-may-remove"),
+    Mutant("option-table-reset-on-refusal", T, "        d = state.him.onResult\n        state.him.onResult = None\n        d.errback(OptionRefused(option))\n", "        d = state.him.onResult\n        state.him.onResult = None\n        self.options.pop(option)\n        d.errback(OptionRefused(option))\n",
+           expect_rule="option-state/who-may-remove"),
+    Mutant("pending-command-byte-in-a-local", T, "                    self.state = \"command\"\n                    self.command = b\n", "                    self.state = \"command\"\n                    pending = b\n",
+           more=[(T, "                command = self.command\n                del self.command\n", "                command = pending\n")], expect_rule="C38:reader/"),
     Mutant("delete-map-entry", T, '        ("yes", True): wont_yes_true,\n', ""),
     Mutant("answer-in-noop-row", T, "        # He is unilaterally offering to enable an already-enabled option.\n        # Ignore this.\n        pass\n",
            "        self._do(option)\n"),
@@ -499,6 +564,10 @@ MUTANTS = [
     Mutant("transport-skips-drain", T, "        Telnet.connectionLost(self, reason)\n        if self.protocol is not None:", "        if self.protocol is not None:"),
 ]
 SILENT = [
+    Silent("forget-option-when-fully-idle", T, "        d.callback(True)\n        self.disableLocal(option)\n\n    dontMap = {",
+           "        d.callback(True)\n        self.disableLocal(option)\n        if not state.us.negotiating and not state.him.negotiating and state.him.state == \"no\":\n            self.options.pop(option, None)\n\n    dontMap = {"),
+    Silent("options-cleared-after-drain", T, "                d = state.him.onResult\n                state.him.onResult = None\n                d.errback(reason)\n\n    def applicationDataReceived",
+           "                d = state.him.onResult\n                state.him.onResult = None\n                d.errback(reason)\n        self.options.clear()\n\n    def applicationDataReceived"),
     Silent("rename-handler-param", T, "    def wont_no_true(self, state, option):\n        # Peer refused to enable an option in response to our request.\n        state.him.negotiating = False\n        d = state.him.onResult\n        state.him.onResult = None\n        d.errback(OptionRefused(option))\n",
            "    def wont_no_true(self, st, option):\n        pending = st.him.onResult\n        st.him.onResult = None\n        st.him.negotiating = False\n        pending.errback(OptionRefused(option))\n"),
     Silent("requester-early-returns", T, "        s = self.getOptionState(option)\n        if s.us.negotiating or s.him.negotiating:\n            return defer.fail(AlreadyNegotiating(option))\n        elif s.us.state == \"yes\":\n            return defer.fail(AlreadyEnabled(option))\n        else:\n            s.us.negotiating = True\n            s.us.onResult = d = defer.Deferred()\n            self._will(option)\n            return d\n",
